@@ -162,6 +162,14 @@ def r04_1(ctx: Ctx):
                         st, why = VIOLATION, f"ranges over {iters} under {filters}, not over every deme of every level"
                     elif all_levels and not elt_ok and elt.endswith((".best_current_individual", ".current_population")):
                         st, why = VIOLATION, f"takes `{elt}` of each deme, not its best over the whole history"
+    if e is not None and st != VIOLATION:
+        # a bare truthiness test of a fitness value drops individuals whose fitness is exactly 0.0
+        for comp in ast.walk(e):
+            if isinstance(comp, ast.comprehension):
+                for cnd in comp.ifs:
+                    conj = cnd.values if isinstance(cnd, ast.BoolOp) and isinstance(cnd.op, ast.And) else [cnd]
+                    if any(isinstance(x, ast.Attribute) and x.attr in ("fitness", "best_fitness") for x in conj):
+                        st, why = VIOLATION, f"filters the demes' bests with the truthiness of a fitness value (`{norm(cnd)}`): a best with fitness exactly 0.0 is dropped from the maximum"
     obs.append(ctx.ob("R04.1", t, t.node, status=st, detail="tree best = max over every deme's best on every level" if st == OK else f"DemeTree.best_individual {why}", construct="tree-best"))
     for ci in ctx.prog.subclasses(base):
         for nm in ("best_individual", "all_individuals"):
@@ -370,6 +378,74 @@ def r04_6(ctx: Ctx):
     return obs
 
 
+def r04_7(ctx: Ctx):
+    """R04.7 every generation a deme evaluates is recorded: on every path from the evaluation of a population to the end of the step / the next evaluation, that population is appended to the metaepoch's generation list (typestate per deme step)."""
+    from ..cfg import typestate, witness_path
+    from .common import is_history_append, node_has_effect
+
+    obs = []
+    n = 0
+    for ci in ctx.concrete_demes():
+        f = ctx.prog.lookup_method(ci, "run_metaepoch")
+        if f is None:
+            continue
+        sn = f.self_name() or "self"
+        cfg = ctx.cfg(f)
+        # populations evaluated in this function: X in evaluate_population(X), or X = <call with an evaluation effect> (engine step)
+        def evaluated_name(nd):
+            if nd.ast is None or nd.kind != "stmt":
+                return None
+            a = nd.ast
+            if isinstance(a, ast.Expr) and isinstance(a.value, ast.Call) and norm(a.value.func).endswith("evaluate_population") and a.value.args and isinstance(a.value.args[0], ast.Name):
+                return a.value.args[0].id
+            if isinstance(a, ast.Assign) and len(a.targets) == 1 and isinstance(a.targets[0], ast.Name) and isinstance(a.value, ast.Call) and node_has_effect(ctx, f, nd, "EVAL") and not norm(a.value.func).startswith(("sopt.", "scipy.")):
+                return a.targets[0].id
+            return None
+
+        ev_nodes = {nd.id: evaluated_name(nd) for nd in cfg.nodes if evaluated_name(nd)}
+        if not ev_nodes:
+            continue
+        n += 1
+        viol = []
+
+        def recorded(nd, name):
+            if nd.ast is None:
+                return False
+            for c in ast.walk(nd.ast):
+                if isinstance(c, ast.Call) and isinstance(c.func, ast.Attribute) and c.func.attr in ("append", "extend") and c.args and any(isinstance(x, ast.Name) and x.id == name for x in ast.walk(c.args[0])):
+                    return True
+            return False
+
+        def node_fn(nd, st):
+            # st: None (nothing pending) or a frozenset of names denoting the one evaluated-but-unrecorded population
+            if st is not None and nd.id in ev_nodes and ev_nodes[nd.id] not in st:
+                viol.append((nd, st, "the next population is evaluated"))
+            if nd.id in ev_nodes:
+                return [frozenset({ev_nodes[nd.id]})]
+            if st is not None and any(recorded(nd, nm) for nm in st):
+                return [None]
+            if st is not None and nd.kind == "stmt" and isinstance(nd.ast, ast.Assign) and len(nd.ast.targets) == 1 and isinstance(nd.ast.targets[0], ast.Name):
+                tgt = nd.ast.targets[0].id
+                if isinstance(nd.ast.value, ast.Name) and nd.ast.value.id in st:
+                    return [frozenset(st | {tgt})]  # alias (parents = offspring)
+                if tgt in st and len(st) > 1:
+                    return [frozenset(st - {tgt})]
+            return [st]
+
+        at, exits, parent = typestate(cfg, [None], node_fn)
+        pending_exit = [s_ for s_ in exits if s_ is not None]
+        # a renamed carrier (parents = offspring) that is already recorded under the old name is fine: only report names never recorded
+        if viol or pending_exit:
+            nm = "/".join(sorted(viol[0][1] if viol else pending_exit[0]))
+            wnode = viol[0][0] if viol else cfg.exit
+            obs.append(ctx.ob("R04.7", f, wnode.stmt if wnode.stmt is not None else f.node, status=VIOLATION, detail=f"{ci.name}: on some path the evaluated population `{nm}` is not appended to the metaepoch's generations before {'the step returns' if not viol else viol[0][2]}: its individuals were evaluated but are missing from the history, so the reported best can be worse than a value the objective returned", witness=witness_path(cfg, parent, wnode.id, viol[0][1] if viol else pending_exit[0]), construct=f"{ci.name}:{nm}"))
+        else:
+            obs.append(ctx.ob("R04.7", f, f.node, detail=f"{ci.name}: every evaluated population is recorded on every path", construct=f"{ci.name}:recorded"))
+    if n < 3:
+        raise AnalysisError(f"only {n} deme steps with an evaluated population found")
+    return obs
+
+
 RULES = [
     ("R04.1", r04_1, 4),
     ("R04.2", r04_2, 14),
@@ -377,4 +453,5 @@ RULES = [
     ("R04.4", r04_4, 2),
     ("R04.5", r04_5, 8),
     ("R04.6", r04_6, 5),
+    ("R04.7", r04_7, 3),
 ]
